@@ -9,7 +9,7 @@ from mc.core import Acc, Hang, horizon
 from mc.props.c16 import CLASS_UNIT, cls
 
 ID = "C14"
-RULE = ("E-INPUT: linear half = the C13 end-point grid x m in {default,1,2,3,5,7,10,20,50,100} through LinearScale.nice(m), every fourth pair also as a three-entry piecewise domain [a, a+0.375(b-a), b], plus domains whose span is 2.3e-7 .. 4.7e-9 of their magnitude; "
+RULE = ("E-INPUT: linear half = the C13 end-point grid x m in {default,1,2,3,5,7,10,20,50,100} through LinearScale.nice(m), every fourth pair also as a three-entry piecewise domain [a, a+0.375(b-a), b], plus domains whose span is 2.3e-7 .. 8.1e-12 of their magnitude and every fifth grid pair scaled by 1e-12 and 1e-100; "
         "time half = start instants (month ends, week/year boundaries of a leap and a non-leap year x 3 times of day, early "
         "instants, a seeded instant) x spans 10 ms..200 y x both orientations x counts {default,2,5,10,20,50} through "
         "TimeScale.nice(m), every third start also as nice(m, skip). Oracle: orientation kept, no end inward, outward move < 2 tick steps (step measured through the "
@@ -63,12 +63,20 @@ def judge_linear(a, b, m, acc=None, mid=None):
     mag0 = max(abs(lo), abs(hi))
     if nlo > lo + 8 * EPS * mag0 or nhi < hi - 8 * EPS * mag0:  # beyond float rounding of k*step
         return "C14:lin-inward", where
+    mag = max(abs(nlo), abs(nhi))
     if len(tk) < 2:
+        # fewer than two ticks to measure the step from: use the documented rule itself (1, 2 or 5 x 10^k, the value
+        # nearest span / m in the sense of the 0.15 / 0.35 / 0.75 thresholds) on the resulting domain
         if acc is not None:
             acc.counters["linear_no_step"] += 1
-        return None
+        span, mm = nhi - nlo, (10 if m is None else m)
+        if not (span > 0 and mm >= 1):
+            return None
+        st0 = 10.0 ** math.floor(math.log10(span / mm))
+        err = mm / span * st0
+        step = st0 * (10 if err <= 0.15 else 5 if err <= 0.35 else 2 if err <= 0.75 else 1)
+        tk = [0.0, step]
     step = (tk[-1] - tk[0]) / (len(tk) - 1)
-    mag = max(abs(nlo), abs(nhi))
     # the tick step is 1, 2 or 5 x 10^k (C13): use that exact value, the measured mean gap carries float error
     k = math.floor(math.log10(step) + 1e-9)
     lead = min((1, 2, 5, 10), key=lambda c: abs(step / 10 ** k - c))
@@ -89,16 +97,21 @@ def judge_linear(a, b, m, acc=None, mid=None):
 
 
 def very_narrow_pairs(vals):
-    """Non-degenerate domains whose span is only 2e-7 .. 5e-9 of their magnitude (C14 is stated for all non-degenerate
+    """Non-degenerate domains whose span is only 2e-7 .. 8e-12 of their magnitude (C14 is stated for all non-degenerate
     domains; the tick step is still 1e5 .. 1e7 units in the last place of the end points)."""
     for v in vals:
         if v == 0:
             continue
-        for rel in (2.3e-7, 3.1e-8, 1.9e-8, 4.7e-9):
+        for rel in (2.3e-7, 3.1e-8, 1.9e-8, 4.7e-9, 6.3e-11, 8.1e-12):
             w = v * (1 + rel)
             if w != v:
                 yield v, w
                 yield w, v
+    # the grid again at microscopic absolute sizes (the rule is scale-free: nothing may depend on an absolute threshold)
+    for k, (a, b) in enumerate(lingrid.pairs(vals)):
+        if k % 5 == 0:
+            for sc in (1e-12, 1e-100):
+                yield a * sc, b * sc
 
 
 # ------------------------------------------------------------------ time
